@@ -53,7 +53,7 @@ def LeafC.union : LeafC → LeafC → PyM LeafC
 
 /-! ### python-version conversions used by the merge (packages/utils/utils.py) -/
 
-/-- one `(op, version)` pair of `normalize_python_version_markers` -/
+/-- one `(op, version)` pair of `normalize_python_version_markers` that is not an `in`/`not in` list -/
 def normalizePyPair (op version : String) : PyM String :=
   let hasStar := version.toList.contains '*'
   let dots := countChar '.' version
@@ -66,17 +66,31 @@ def normalizePyPair (op version : String) : PyM String :=
       let op' := if pv.precision < 3 then (if op == "<=" then "<" else ">=") else op
       let v' := if pv.precision == 2 then pv.nextMinor.text else version
       .ok (op' ++ v')
-  else if op == "in" || op == "not in" then
-    -- `if versions:` is always true (re.split never returns an empty list)
-    .ok (versionListConstraint (op == "in") version)
   else .ok (op ++ version)
+
+/-- one conjunction: `in` with several versions is a disjunction inside the conjunction, so the
+conjunction is expanded into one alternative per version (repo fix bb3e413); `versions` is never
+empty (re.split never returns an empty list) -/
+def normalizePyConj : List (String × String) → List (List String) → PyM (List (List String))
+  | [], alts => .ok alts
+  | (op, version) :: rest, alts =>
+    if op == "in" then
+      let vs := versionListItems true version
+      normalizePyConj rest (alts.flatMap (fun ands => vs.map (fun v => ands ++ [v])))
+    else if op == "not in" then
+      let item := joinWith ", " (versionListItems false version)
+      normalizePyConj rest (alts.map (fun ands => ands ++ [item]))
+    else
+      match normalizePyPair op version with
+      | .error e => .error e
+      | .ok item => normalizePyConj rest (alts.map (fun ands => ands ++ [item]))
 
 /-- `normalize_python_version_markers(disjunction)` -/
 def normalizePyMarkers (disj : List (List (String × String))) : PyM String := do
   let ors ← disj.mapM fun conj => do
-    let ands ← conj.mapM (fun p => normalizePyPair p.1 p.2)
-    pure (joinWith " " ands)
-  pure (joinWith " || " ors)
+    let alts ← normalizePyConj conj [[]]
+    pure (alts.map (joinWith " "))
+  pure (joinWith " || " ors.flatten)
 
 def isPyName (n : String) : Bool := Gen.pythonVersionMarkers.contains n
 
